@@ -381,4 +381,3 @@ func (fr *Frame) guardedAccess(a *Val, st *State, pos token.Pos) {
 		}
 	}
 }
-
